@@ -8,8 +8,10 @@ if [ $BASE -eq 1 ]; then rsync -a --exclude .git --exclude '*.pyc' --exclude __p
 else rsync -a --exclude .git --exclude '*.pyc' --exclude __pycache__ --exclude docs --exclude tests/schema /repo/ "$S/"; fi
 ( cd "$S" && patch -p1 -s < "$SD/patch.diff" ) || { echo "PATCH FAILED"; rm -rf "$S"; exit 3; }
 DEMO="$SD/demo.py"; [ -f "$DEMO" ] || DEMO="$SD/demo_test.py"
-( cd /repo && timeout 300 /venv/bin/python "$DEMO" >/dev/null 2>&1 ); d0=$?
-( cd "$S" && timeout 300 /venv/bin/python "$DEMO" >/dev/null 2>&1 ); d1=$?
+# demonstrations may start listeners on fixed ports: private network namespace where available
+NS=""; unshare -n true 2>/dev/null && NS="unshare -n"
+( cd /repo && $NS sh -c 'ip link set lo up 2>/dev/null; exec timeout 300 /venv/bin/python "$0"' "$DEMO" >/dev/null 2>&1 ); d0=$?
+( cd "$S" && $NS sh -c 'ip link set lo up 2>/dev/null; exec timeout 300 /venv/bin/python "$0"' "$DEMO" >/dev/null 2>&1 ); d1=$?
 echo "demo: clean tree exit $d0 (want 0), with change exit $d1 (want != 0)"
 if [ $BASE -eq 1 ]; then /verif/tools/baseline.sh "$S" 10 | tail -4; fi
 cd /verif
